@@ -7,6 +7,43 @@ use std::{collections::BTreeMap, fmt::Debug, ops::Deref};
 use super::aabb::AABB;
 use super::ray::Ray;
 
+/// Contadores e invariantes para verificación en tiempo de ejecución (solo con --cfg pachi_cteenergymodel_verif)
+#[cfg(pachi_cteenergymodel_verif)]
+pub mod verif_hook {
+    use std::sync::atomic::{AtomicU64, Ordering};
+
+    /// [construcciones vacías, de un único nodo terminal, particionadas, nodos emitidos, nodos terminales no divisibles]
+    pub static STATS: [AtomicU64; 5] = [
+        AtomicU64::new(0),
+        AtomicU64::new(0),
+        AtomicU64::new(0),
+        AtomicU64::new(0),
+        AtomicU64::new(0),
+    ];
+
+    pub fn bump(idx: usize, n: u64) {
+        STATS[idx].fetch_add(n, Ordering::Relaxed);
+    }
+
+    /// Estadísticas acumuladas de construcción de BVH en este proceso
+    pub fn verif_bvh_stats() -> [u64; 5] {
+        [
+            STATS[0].load(Ordering::Relaxed),
+            STATS[1].load(Ordering::Relaxed),
+            STATS[2].load(Ordering::Relaxed),
+            STATS[3].load(Ordering::Relaxed),
+            STATS[4].load(Ordering::Relaxed),
+        ]
+    }
+
+    /// Cota de nodos de un árbol con n elementos: si se supera, la construcción no está progresando
+    pub fn check_node_bound(num_nodes: usize, num_elements: usize) {
+        if num_nodes > 4 * num_elements + 16 {
+            panic!("verif-hook: BVH node bound exceeded");
+        }
+    }
+}
+
 /// Elementos capaces de definir la AABB que los encierra
 pub trait Bounded {
     fn aabb(&self) -> AABB;
@@ -84,10 +121,14 @@ impl<T: Bounded> BVH<T> {
 
         let mut id: NodeId = 0;
         let ll = elements.len();
+        #[cfg(pachi_cteenergymodel_verif)]
+        verif_hook::bump(if ll == 0 { 0 } else if ll <= max_num_elements { 1 } else { 2 }, 1);
         if ll > max_num_elements {
             let (left, right) = BVH::partition_elements_by_centroid(elements);
             // Elementos que no se pueden separar por centroide (p.e. centros coincidentes): un único nodo terminal
             if left.is_empty() || right.is_empty() {
+                #[cfg(pachi_cteenergymodel_verif)]
+                verif_hook::bump(4, 1);
                 let mut all_elements = left;
                 all_elements.extend(right);
                 node_list.push(TreeElement(0, Leaf, L, None, Some(all_elements)));
@@ -101,6 +142,8 @@ impl<T: Bounded> BVH<T> {
             id += 2;
             // Procesar stack de pendientes de dividir
             while !pending.is_empty() {
+                #[cfg(pachi_cteenergymodel_verif)]
+                verif_hook::check_node_bound(node_list.len() + pending.len(), ll);
                 let TreeElement(c_id, _c_type, c_side, c_maybe_parent_id, c_maybe_elems) =
                     pending.pop().unwrap();
                 let c_elems = c_maybe_elems.unwrap();
@@ -110,6 +153,8 @@ impl<T: Bounded> BVH<T> {
                     let (left, right) = BVH::partition_elements_by_centroid(c_elems);
                     // Elementos que no se pueden separar por centroide: nodo terminal con todos ellos
                     if left.is_empty() || right.is_empty() {
+                        #[cfg(pachi_cteenergymodel_verif)]
+                        verif_hook::bump(4, 1);
                         let mut all_elements = left;
                         all_elements.extend(right);
                         node_list.push(TreeElement(
@@ -139,6 +184,8 @@ impl<T: Bounded> BVH<T> {
         } else {
             node_list.push(TreeElement(0, Leaf, L, None, Some(elements)));
         }
+        #[cfg(pachi_cteenergymodel_verif)]
+        verif_hook::bump(3, node_list.len() as u64);
         node_list
     }
 
